@@ -206,6 +206,7 @@ pub fn run(cfg: &Cfg, rep: &mut Report) {
         "(?<a>(?<a>x))", "(?<a>x)|((?<a>y)|(?<a>z))", "(?:(?<a>x)|(?<a>y))\\k<a>", "\\1", "\\1(a)", "(a)\\2", "\\0", "\\00", "\\01", "\\08", "\\8", "\\9", "\\18", "(a)\\18", "\\377", "\\400", "[\\1]", "[\\8]", "[\\08]", "\\10(a)(b)(c)(d)(e)(f)(g)(h)(i)(j)",
         "a{", "a{1", "a{1,", "a{1,2", "a{,2}", "a{1}{2}", "a{2,1}", "a{1,1}", "a{01,1}", "a{99999999999999999999,99999999999999999998}", "a{99999999999999999999}", "{", "}", "]", "{1}", "{1,}", "{1,2}", "{a}", "a{1}?", "a{1}??", "a**", "a*?", "a*??", "a+*", "a?+", "^*", "$+", "\\b*", "\\B?", "(?=a)*", "(?!a)+", "(?<=a)*", "(?<!a)?", "(?=a){2}", "(?:)*", "()*",
         "[a-z]", "[z-a]", "[a-a]", "[-a]", "[a-]", "[--a]", "[a--]", "[---]", "[a-b-c]", "[\\d-a]", "[a-\\d]", "[\\d-\\d]", "[\\w-\\d]", "[]", "[^]", "[]]", "[[]", "[\\]]", "[", "[a", "[\\", "[^", "[a-", "[\\b]", "[\\B]", "[\\-]", "[\\c]", "[\\c1]", "[\\c_]", "[\\cA]", "[\\c*]", "\\c", "\\c1", "\\cA", "\\c*",
+        "\\p{gc=sc=Greek}", "\\p{sc=gc=Lu}", "\\P{Script=Script_Extensions=Grek}", "\\p{gc=gc=Lu}", "[\\p{scx=gc=Lu}]", "\\p{gc==Lu}", "\\p{gc=Lu=}", "\\p{=gc=Lu}", "\\p{gc=Lu=Ll}", "\\p{Lu=gc}", "\\p{gc=}", "\\p{=Lu}", "\\p{gc=sc=}", "\\p{ASCII=gc=Lu}", "\\p{gc=ASCII}",
         // hex digits only: no sign, no space, no underscore (integer parsers of the host language accept some of these)
         "\\u{+41}", "\\u+041", "\\u{-41}", "\\u-041", "\\u{ 41}", "\\u{4_1}", "\\u{0x41}", "\\u00+1", "[\\u{+41}]", "[\\u+041-z]", "\\uD83D\\u+E00", "\\x+4", "\\x4+", "\\x-4", "(?<\\u{+61}>x)", "(?<a\\u+062>x)", "(?<\\u+061>x)", "\\u{+}", "\\u{+10FFFF}", "\\u{+110000}",
         "\\u", "\\u0", "\\u00", "\\u000", "\\u0041", "\\u{41}", "\\u{}", "\\u{110000}", "\\u{10FFFF}", "\\u{0000000041}", "\\u{41", "\\uD83D\\uDE00", "\\uD83D", "\\uDE00", "[\\uD83D\\uDE00]", "[\\uD83D\\uDE00-\\uD83D\\uDE01]", "\\x", "\\x4", "\\x41", "\\xZZ",
